@@ -399,6 +399,13 @@ def run_path(contract, c, state):
             c.spec_mode += 1
             try:
                 v = ef(s)
+            except (IndexError, KeyError) as ce:
+                # the clause presupposes a shape of the result (e.g. `s.result[0]` is the event that must have been
+                # emitted) that this path does not produce: the postcondition is false here, not a checker crash
+                v = False
+                c.oblige(en, v, kind="post", info=f"clause not evaluable on this path: {type(ce).__name__}: {ce} "
+                                                  "(the result does not have the shape the clause speaks about)")
+                continue
             finally:
                 c.spec_mode -= 1
             c.oblige(en, v, kind="post")
